@@ -263,6 +263,17 @@ func (a *align) Clear() {
 	a.length = -1
 }
 
+// FilterLength removes sequences whose length is <minlength or >maxlength
+// (see SeqBag.FilterLength). If no sequence remains, the alignment is
+// empty again and its length is reset.
+func (a *align) FilterLength(minlength, maxlength int) (err error) {
+	err = a.seqbag.FilterLength(minlength, maxlength)
+	if len(a.seqs) == 0 {
+		a.length = -1
+	}
+	return
+}
+
 // Length returns the current length of the alignment
 func (a *align) Length() int {
 	return a.length
